@@ -16,11 +16,15 @@ CLAIMED = {
             'theorems; Python ==/< on builtins as transcribed.', 'DESIGN.md 6/C14'),
     'C04': ('Lean 4 theorems over interaction-tree programs (induction on the program): the decorated run equals the '
             'undecorated twin in result and executed bodies, for all programs and fault placements; tied to /repo by '
-            'differential execution of model and real recorder on random histories with a decorated/undecorated twin oracle',
+            'differential execution of model and real recorder on random histories with a decorated/undecorated twin oracle; '
+            'plus a micro-step thread model (every shared read/write its own step) with a theorem over all schedules, tied by '
+            'running real worker threads under a controlled line-granularity scheduler (all schedules with <= 2 pre-emptions '
+            'within a budget, then random ones)',
             'Kernel-checked: for every program (any calls, nested interceptions, discard/force from bodies, key/handler/'
             'extractor/save faults, interrupts) and every recorder state outside replay, results and executed bodies equal '
-            'the twin\'s; disabled/skipped is pass-through and never touches the cassette. Sequential programs; thread '
-            'interleavings are not covered by a theorem (partial).',
+            'the twin\'s; disabled/skipped is pass-through and never touches the cassette. For interceptions in flight on worker '
+            'threads while the recording is discarded/finalised: under every schedule of the model\'s micro-steps no step raises '
+            'and each call is handed its body\'s outcome (partial: CPython\'s real switch points are explored, not proved).',
             'Trusted: Lean kernel; hand-written recorder model tied by differential execution; values opaque; CPython '
             'thread switching not modelled; known finding K6 (nested operation) excluded by hypothesis.', 'DESIGN.md 6/C04'),
     'C05': ('Lean 4 invariant proof (recording scope invariant preserved by every interpreter step, lifted to all programs) '
